@@ -258,7 +258,37 @@ func raceMode(ref map[string]outcome) {
 		}(g)
 	}
 	wg.Wait()
-	b, _ := json.Marshal(map[string]any{"goroutines": G, "renders_each": N, "mismatch": mismatch, "dev_mode": devModeReady()})
+	// first use of a fresh once handle by several goroutines at the same moment (a handle that sets itself up lazily
+	// is set up by all of them at once): in each goroutine's own context the block appears exactly once
+	const rounds = 3000
+	for r := 0; r < rounds && mismatch == ""; r++ {
+		h := templ.NewOnceHandle()
+		start := make(chan struct{})
+		outs := make([]string, G)
+		var wg2 sync.WaitGroup
+		for g := 0; g < G; g++ {
+			wg2.Add(1)
+			go func(g int) {
+				defer wg2.Done()
+				<-start
+				ctx := templ.InitializeContext(context.Background())
+				block := templ.ComponentFunc(func(ctx context.Context, w io.Writer) error { _, err := io.WriteString(w, "X"); return err })
+				var b bytes.Buffer
+				for k := 0; k < 3; k++ {
+					h.Once().Render(templ.WithChildren(ctx, block), &b)
+				}
+				outs[g] = b.String()
+			}(g)
+		}
+		close(start)
+		wg2.Wait()
+		for g, o := range outs {
+			if o != "X" {
+				mismatch = fmt.Sprintf("round %d: goroutine %d used a fresh once handle three times in its own context and rendered %q, want \"X\"", r, g, o)
+			}
+		}
+	}
+	b, _ := json.Marshal(map[string]any{"goroutines": G, "renders_each": N, "fresh_once_handle_rounds": rounds, "mismatch": mismatch, "dev_mode": devModeReady()})
 	suffix := ""
 	if devModeReady() {
 		suffix = "-dev"
